@@ -15,4 +15,9 @@ func init() {
 		"Decides the per-path counting facts behind exact statistics: the lookup-count table per operation with hit <=> live entry (C20.lookup), one load record per loader dispatch and eviction records only for removals that happened (C20.load / C20.evict). NOT decided: exactness of the striped adder under contention.",
 		[]string{"stats.Recorder methods only add"},
 		ruleC20Lookup, ruleC20Load, ruleEvict)
+	register("C12",
+		"Decides the structural clauses of exact, overflow-free deadlines on every enumerated path: each stored deadline is the saturating sum of the operation's clock sample and the duration the hook returned on that path (C12.sat); hooks are selected by the pre-state - create for absent/expired, update/reload with the live old value, failure hook on failed reloads, read hook once per counted read - and an expired predecessor's value is never passed on (C12.hook); a replacing node inherits its predecessor's deadlines first (C12.inherit); the deadline writers are exactly the known sites (C12.sites); HasExpired/IsFresh have the same boundary in every variant (C12.bound). "+
+			"NOT decided: numeric equality deadline = now + d on concrete runs.",
+		[]string{"xmath.SaturatedAdd saturates (checked by C12.satfn)", "calculators are pure with respect to the cache"},
+		ruleC12Hooks, ruleC12Sites, ruleC12Bound, ruleC12Apply)
 }
